@@ -647,7 +647,9 @@ def check_runs(prog: Program, res: Result) -> None:
             n += 1
             res.touch(fi)
             v = st.value
-            clamped = isinstance(v, ast.Call) and norm(v.func) == "max" and any(astq.const_value(a) is not None and astq.const_value(a) >= 1 for a in v.args)
+            clamped = isinstance(v, ast.Call) and norm(v.func) == "max" and any(isinstance(astq.const_value(a), (int, float)) and astq.const_value(a) >= 1 for a in v.args)
+            if isinstance(v, ast.BoolOp) and isinstance(v.op, ast.Or) and isinstance(astq.const_value(v.values[-1]), (int, float)) and astq.const_value(v.values[-1]) >= 1:
+                clamped = True   # n // b or 1
             par = getattr(st, "_parent", None)
             blk = next((getattr(par, f) for f in ("body", "orelse", "finalbody") if isinstance(getattr(par, f, None), list) and st in getattr(par, f)), [])
             for nx in blk[blk.index(st) + 1:] if st in blk else []:
@@ -742,4 +744,7 @@ VARIANTS = [
     Variant("bp-extra-mask", T, "        self._initialize_model()\n        total_params", "        if self._wandb_api_key is not None:\n            self.config.trainer_config.wandb.api_key = \"\"\n        self._initialize_model()\n        total_params", None),
     Variant("bp-alias-save", T, "            OmegaConf.save(config=self.config, f=f\"{self.dir_path}/initial_config.yaml\")",
             "            initial_path = f\"{self.dir_path}/initial_config.yaml\"\n            OmegaConf.save(config=self.config, f=initial_path)", None),
+    Variant("bp-steps-max", T, "            self.steps_per_epoch = (\n                len(self.train_dataset)\n                // self.config.trainer_config.train_data_loader.batch_size\n            )\n            if self.steps_per_epoch == 0:\n                self.steps_per_epoch = 1\n\n        pin_memory = (",
+            "            self.steps_per_epoch = max(\n                1,\n                len(self.train_dataset)\n                // self.config.trainer_config.train_data_loader.batch_size,\n            )\n\n        pin_memory = (", None),
+    Variant("steps-guard-dropped", T, "            if self.steps_per_epoch == 0:\n                self.steps_per_epoch = 1\n\n        pin_memory = (", "\n        pin_memory = (", "C19-run"),
 ]
